@@ -161,3 +161,36 @@ package interp
 //@   ensures [local:fr] results-are-the-leading-slots-of-the-callee-frame: len(out) == numRet && forall(k, 0, numRet, out[k] == fr.data[k])
 //@   loop 3
 //@   step [next] argument-i-is-copied-into-parameter-slot-i: !isInterfaceSrc(def.typ.arg[i]) || isEmptyInterface(def.typ.arg[i]) ==> rvIface(d[i]) == rvIface(arg) && rvInt(d[i]) == rvInt(arg) && rvString(d[i]) == rvString(arg)
+
+// callBin, argument vector of a host call (every form): argument i is operand i as getBinValue yields it
+// (wrapped map types unwrapped), for every i; the branch form follows result 0.
+//@ trusted func getBinValue(getMapType, value, f) (r)
+//@   pure
+//@ lit callBin exec#2 (f) (ret)
+//@   props C07
+//@   opt safety = off
+//@   opt fn-values = pure
+//@   opt opaque-calls = *
+//@   opt opaque-havoc = none
+//@   requires [assume] f != nil && n != nil
+//@   loop 1
+//@   step argument-i-is-operand-i: in[i] == getBinValue(getMapType, v, f) && forall(k, 0, len(in), k != i ==> in[k] == old(in[k]))
+//@ lit callBin exec#3 (f) (ret)
+//@   props C07
+//@   opt safety = off
+//@   opt fn-values = pure
+//@   opt opaque-calls = *
+//@   opt opaque-havoc = none
+//@   requires [assume] f != nil && n != nil
+//@   ensures [local:b] branch-follows-the-boolean-result: ret == ite(b, tnext, fnext) && rvBool(getFrame(f, level).data[index]) == b
+//@   loop 1
+//@   step argument-i-is-operand-i: in[i] == getBinValue(getMapType, v, f) && forall(k, 0, len(in), k != i ==> in[k] == old(in[k]))
+//@ lit callBin exec#5 (f) (ret)
+//@   props C07
+//@   opt safety = off
+//@   opt fn-values = pure
+//@   opt opaque-calls = *
+//@   opt opaque-havoc = none
+//@   requires [assume] f != nil && n != nil
+//@   loop 1
+//@   step argument-i-is-operand-i: in[i] == getBinValue(getMapType, v, f) && forall(k, 0, len(in), k != i ==> in[k] == old(in[k]))
